@@ -52,6 +52,8 @@ class CharSet:
                 hit = v[0] <= cp <= v[1]
             elif kind == "cat":
                 hit = _category(v, ch)
+            elif kind == "acat":
+                hit = _category_ascii(v, ch)
             if hit:
                 break
         return hit != self.negate
@@ -88,6 +90,24 @@ def _category(cat, ch: str) -> bool:
     raise AnalysisError(f"regex category {cat} not supported")
 
 
+def _category_ascii(cat, ch: str) -> bool:
+    """The same categories under re.ASCII (inline `(?a:...)`): only ASCII characters are digits, spaces, word characters."""
+    a = ch.isascii()
+    if cat is C.CATEGORY_DIGIT:
+        return a and ch in "0123456789"
+    if cat is C.CATEGORY_NOT_DIGIT:
+        return not (a and ch in "0123456789")
+    if cat is C.CATEGORY_SPACE:
+        return a and ch in " \t\n\r\f\v"
+    if cat is C.CATEGORY_NOT_SPACE:
+        return not (a and ch in " \t\n\r\f\v")
+    if cat is C.CATEGORY_WORD:
+        return a and (ch.isalnum() or ch == "_")
+    if cat is C.CATEGORY_NOT_WORD:
+        return not (a and (ch.isalnum() or ch == "_"))
+    raise AnalysisError(f"regex category {cat} not supported")
+
+
 def is_word(cp) -> bool:
     if cp is None or cp == EOF:
         return False
@@ -116,7 +136,8 @@ class NFA:
         return self.n - 1
 
 
-def _charset_of(op, av):
+def _charset_of(op, av, ascii_=False):
+    cat = "acat" if ascii_ else "cat"
     if op is C.LITERAL:
         return CharSet([("lit", av)])
     if op is C.NOT_LITERAL:
@@ -124,7 +145,7 @@ def _charset_of(op, av):
     if op is C.ANY:
         return CharSet(any_=True)
     if op is C.CATEGORY:
-        return CharSet([("cat", av)])
+        return CharSet([(cat, av)])
     if op is C.IN:
         items, neg = [], False
         for o, a in av:
@@ -135,18 +156,19 @@ def _charset_of(op, av):
             elif o is C.RANGE:
                 items.append(("range", tuple(a)))
             elif o is C.CATEGORY:
-                items.append(("cat", a))
+                items.append((cat, a))
             else:
                 raise AnalysisError(f"regex set item {o} not supported")
         return CharSet(items, neg)
     return None
 
 
-def _build(nfa: NFA, items, nxt: int, pattern: str) -> int:
-    """Build the fragment for `items` (a sequence) continuing to state `nxt`; return its start."""
+def _build(nfa: NFA, items, nxt: int, pattern: str, ascii_=False) -> int:
+    """Build the fragment for `items` (a sequence) continuing to state `nxt`; return its start.
+    ascii_: inside an inline `(?a:...)` group (categories are the ASCII ones)."""
     cur = nxt
     for op, av in reversed(list(items)):
-        cs = _charset_of(op, av)
+        cs = _charset_of(op, av, ascii_)
         if cs is not None:
             s = nfa.new()
             nfa.chr[s] = (cs, cur)
@@ -154,13 +176,14 @@ def _build(nfa: NFA, items, nxt: int, pattern: str) -> int:
             cur = s
         elif op is C.SUBPATTERN:
             group, add_flags, del_flags, p = av
-            if add_flags or del_flags:
-                raise AnalysisError(f"inline regex flags not supported in {pattern!r}")
-            cur = _build(nfa, p, cur, pattern)
+            import re as _re
+            if del_flags or (add_flags & ~_re.ASCII):
+                raise AnalysisError(f"inline regex flags other than (?a:...) are not supported in {pattern!r}")
+            cur = _build(nfa, p, cur, pattern, ascii_ or bool(add_flags & _re.ASCII))
         elif op is C.BRANCH:
             _, alts = av
             s = nfa.new()
-            nfa.eps[s] = [_build(nfa, alt, cur, pattern) for alt in alts]
+            nfa.eps[s] = [_build(nfa, alt, cur, pattern, ascii_) for alt in alts]
             cur = s
         elif op in (C.MAX_REPEAT, C.MIN_REPEAT):
             lo, hi, p = av
@@ -170,7 +193,7 @@ def _build(nfa: NFA, items, nxt: int, pattern: str) -> int:
             after = cur
             if hi == MAXREPEAT:
                 loop = nfa.new()
-                body = _build(nfa, p, loop, pattern)
+                body = _build(nfa, p, loop, pattern, ascii_)
                 nfa.eps[loop] = [body, after] if greedy else [after, body]
                 cur = loop
             else:
@@ -178,13 +201,15 @@ def _build(nfa: NFA, items, nxt: int, pattern: str) -> int:
                     raise AnalysisError(f"bounded repeat too large in {pattern!r}")
                 for _ in range(hi - lo):
                     o = nfa.new()
-                    body = _build(nfa, p, cur, pattern)
+                    body = _build(nfa, p, cur, pattern, ascii_)
                     nfa.eps[o] = [body, after] if greedy else [after, body]
                     cur = o
             for _ in range(lo):
-                cur = _build(nfa, p, cur, pattern)
+                cur = _build(nfa, p, cur, pattern, ascii_)
         elif op is C.AT:
             s = nfa.new()
+            if ascii_ and av in (C.AT_BOUNDARY, C.AT_NON_BOUNDARY):
+                raise AnalysisError(f"\\b inside an (?a:...) group is not supported ({pattern!r})")
             if av is C.AT_BOUNDARY:
                 nfa.asr[s] = ("b", cur)
             elif av is C.AT_NON_BOUNDARY:
@@ -195,7 +220,7 @@ def _build(nfa: NFA, items, nxt: int, pattern: str) -> int:
         elif op in (C.ASSERT, C.ASSERT_NOT):
             direction, p = av
             plist = list(p)
-            cs = _charset_of(*plist[0]) if len(plist) == 1 else None
+            cs = _charset_of(*plist[0], ascii_) if len(plist) == 1 else None
             if cs is None:
                 raise AnalysisError(f"only single-character look-around is supported ({pattern!r})")
             nfa.sets.append(cs)
